@@ -198,6 +198,32 @@ impl<K: HKey> Session<K> {
                 Err(e) => format!("err {}", classify(&e)),
             },
             ["close"] => { self.close(); "ok".into() }
+            // drop the handle but keep the OrphanStats (which owns an Arc of the inner handle)
+            ["close_keep_stats"] => { self.txs.clear(); self.cas = None; "ok".into() }
+            // n threads race to open the directory; exactly one must win
+            ["race_open", n] => {
+                if self.cas.is_some() { return "already-open-in-worker".into(); }
+                let n: usize = n.parse().unwrap();
+                let barrier = std::sync::Barrier::new(n);
+                let cfgline = self.cfgline.clone();
+                let dir = self.dir.clone();
+                let mut results: Vec<Result<(Cas<K>, Option<OrphanStats<K>>), String>> = std::thread::scope(|sc| {
+                    let hs: Vec<_> = (0..n).map(|_| sc.spawn(|| {
+                        barrier.wait();
+                        Cas::<K>::open_with_recover(&dir, config_full(&cfgline)).map_err(|e| classify(&e))
+                    })).collect();
+                    hs.into_iter().map(|h| h.join().unwrap()).collect()
+                });
+                let wins = results.iter().filter(|r| r.is_ok()).count();
+                let losers: Vec<String> = results.iter().filter_map(|r| r.as_ref().err().cloned()).collect();
+                let all_already = losers.iter().all(|l| l == "alreadyOpened");
+                if let Some(pos) = results.iter().position(|r| r.is_ok()) {
+                    let (cas, stats) = results.remove(pos).unwrap();
+                    self.cas = Some(cas);
+                    self.stats = stats;
+                }
+                format!("winners={wins} losers_already_opened={all_already}")
+            }
             ["dropstats"] => { self.stats = None; "ok".into() }
             ["put", k, chunks] => {
                 let cas = cas!();
@@ -290,6 +316,16 @@ impl<K: HKey> Session<K> {
                 let c = cas!();
                 format!("next={} persisted={} intents={}", c.verif_next_op_version(), c.verif_last_persisted_version(), c.verif_intents().len())
             }
+            ["conc", policy, progs @ ..] => {
+                let cas = cas!();
+                let programs: Vec<Vec<crate::conc::COp>> = progs.iter().map(|p| p.split(';').map(crate::conc::parse_cop).collect()).collect();
+                let (sched, obs) = crate::conc::run(cas, self.stats.as_ref(), &self.dir, programs, policy);
+                format!("sched={} {}", sched.iter().map(|t| t.to_string()).collect::<Vec<_>>().join(","), obs)
+            }
+            ["orphan_order"] => match self.stats.as_ref() {
+                Some(s) => { let v: Vec<String> = s.orphaned_blobs.iter().map(|h| hx(h.as_bytes())).collect(); if v.is_empty() { "_".into() } else { v.join(",") } }
+                None => "nostats".into(),
+            },
             ["delete_orphans"] => match self.stats.as_ref() {
                 Some(s) => match s.delete_orphans() {
                     Ok(r) => format!("deleted={} skipped={} invalid={} staging={} errors={}", r.orphans_deleted, r.orphans_skipped, r.invalid_files_removed, r.staging_files_removed, r.errors.len()),
@@ -369,6 +405,7 @@ fn run_session<K: HKey>(dir: PathBuf, cfgline: String, fsio: &Fsio, lines: &mut 
 /// worker main: first line must be `dir <path>`, then `cfg ...` lines start sessions
 pub fn main() {
     std::panic::set_hook(Box::new(|_| {}));
+    crate::conc::install_point_callback();
     let fsio = Fsio::load();
     let stdin = std::io::stdin();
     let mut lines = stdin.lock().lines().map(|l| l.expect("stdin"));
